@@ -25,6 +25,7 @@
 #include "sim.h"
 #include "simalloc.h"
 #include "vkernel.h"
+#include "tls_stub.h"
 
 const char * engine_name = "http";
 const char * const engine_props[] = { "C08", "C09", "C14", NULL };
@@ -34,7 +35,7 @@ enum {
 	N_INTERIM, N_INTERIM_LONGER, N_BODY_AT_LIMIT, N_BODY_OVER_LIMIT, N_TOOBIG, N_BIGHDR, N_BOUNDARY, N_EARLY, N_MUT,
 	N_TRUNC, N_CHUNK_OVER_1M, N_HDR_OVER_4K, N_CONN_FAILED_ADDR, N_ALL_ADDR_FAILED, N_RST,
 	N_F_RECV_SHORT, N_F_RECV_EAGAIN, N_F_RECV_EINTR, N_F_SEND_SHORT, N_F_SEND_EAGAIN, N_F_SEND_EINTR, N_F_SPUR,
-	N_F_POLL_EINTR, N_F_ALLOC, N_POLLS, N_RUNS, N_LOOP_FAIL, N_SEGS, N_ONEBYTE, N_BYTES
+	N_F_POLL_EINTR, N_F_ALLOC, N_POLLS, N_RUNS, N_LOOP_FAIL, N_SEGS, N_ONEBYTE, N_BYTES, N_CB_NONZERO, N_TLS, N_TLS_MIX
 };
 const char * const engine_counters[] = {
 	"requests", "callbacks", "callback_null", "callback_response", "probe_cancelled", "wellformed_responses",
@@ -45,7 +46,8 @@ const char * const engine_counters[] = {
 	"probe_connect_address_failed", "probe_all_addresses_failed", "fault_connection_reset",
 	"fault_recv_short", "fault_recv_eagain", "fault_recv_eintr", "fault_send_short", "fault_send_eagain",
 	"fault_send_eintr", "fault_poll_spurious", "fault_poll_eintr", "fault_alloc_failed", "polls", "events_run_calls",
-	"probe_loop_returned_error", "segments_delivered", "probe_single_byte_segments", "response_bytes", NULL
+	"probe_loop_returned_error", "segments_delivered", "probe_single_byte_segments", "response_bytes",
+	"probe_callback_returned_nonzero", "requests_over_tls_stub", "probe_tls_and_plain_requests_in_one_process", NULL
 };
 
 #define AF_SINCE(before) (simalloc_failed != (before))
@@ -630,6 +632,10 @@ static int hostile;
 static int cancel_after;		/* cancel after this many loop iterations (-1 never) */
 static int chain_left;			/* issue another, identical request from inside the callback this many times */
 static int expect_cb = 1;
+static int cb_rc;			/* what the (last) callback returns to the event loop */
+static int cb_rc_returned;
+static int use_tls;			/* https_request instead of http_request */
+static int tls_mix, nissued;		/* alternate between the two from request to request */
 
 static void
 attach_server(struct vsock * vs)
@@ -807,6 +813,25 @@ on_deadlock(void)
 /* ---------- the user callback: C08 and C09 oracles ---------- */
 static int http_callback(void *, struct http_response *);
 
+/* Plain HTTP, or HTTPS through https.c with the null-cipher stand-in for the TLS record layer. */
+static void *
+issue_request(void)
+{
+
+	if (tls_mix) {
+		/* one process talks HTTPS to one server and plain HTTP to another: the TLS glue stays installed */
+		use_tls = (tls_mix + nissued) & 1;
+		if (nissued > 0)
+			R->cnt[N_TLS_MIX]++;
+	}
+	nissued++;
+	if (use_tls) {
+		R->cnt[N_TLS]++;
+		return (https_request(sas, &HREQ, maxrlen, http_callback, NULL, "server.example.org"));
+	}
+	return (http_request(sas, &HREQ, maxrlen, http_callback, NULL));
+}
+
 static void
 maybe_chain(void)
 {
@@ -818,7 +843,7 @@ maybe_chain(void)
 	TR(0x03, 0, 0, "http_request again, from inside the callback");
 	next_addr = 0;
 	LIB_ENTER();
-	hcookie = http_request(sas, &HREQ, maxrlen, http_callback, NULL);
+	hcookie = issue_request();
 	LIB_LEAVE();
 	if (hcookie != NULL) {
 		req_live = 1;
@@ -849,6 +874,12 @@ http_callback(void * cookie, struct http_response * res)
 		if (EX.known && !all_addr_fail && !AF_SINCE(0))
 			sim_viol("C09.status", "null", "well-formed response (status %d, %zu body bytes, limit %zu) but the callback got NULL", EX.status, EX.bodylen, maxrlen);
 		maybe_chain();
+		if (cb_rc != 0 && !req_live) {
+			cb_rc_returned = 1;
+			R->cnt[N_CB_NONZERO]++;
+			CB_LEAVE();
+			return (cb_rc);
+		}
 		CB_LEAVE();
 		return (0);
 	}
@@ -903,6 +934,13 @@ http_callback(void * cookie, struct http_response * res)
 	/* the callback owns the body */
 	free(res->body);
 	maybe_chain();
+	if (cb_rc != 0 && !req_live) {
+		/* the application asks the event loop to stop by returning non-zero from its callback */
+		cb_rc_returned = 1;
+		R->cnt[N_CB_NONZERO]++;
+		CB_LEAVE();
+		return (cb_rc);
+	}
 	CB_LEAVE();
 	return (0);
 }
@@ -954,7 +992,14 @@ engine_gen(struct plan * P, uint64_t seed, struct prng * g)
 	plan_add(P, "knob", "req_seed", 1, (int64_t)prng_n(g, 1000000));
 	plan_add(P, "knob", "fd_base", 1, (int64_t)(prng_chance(g, 15) ? 3 + prng_n(g, 100) : prng_chance(g, 10) ? 0 : 3));
 	plan_add(P, "knob", "syslog", 1, (int64_t)prng_chance(g, 20));
-	plan_add(P, "knob", "chain", 1, (int64_t)(prng_chance(g, 12) ? 1 + prng_n(g, 2) : 0));
+	{
+		int chain = prng_chance(g, 12) ? 1 + (int)prng_n(g, 2) : 0;
+
+		plan_add(P, "knob", "chain", 1, (int64_t)chain);
+		/* tls: 0 plain, 1 HTTPS, 2/3 alternate (plain first / HTTPS first) between chained requests */
+		plan_add(P, "knob", "tls", 1, (int64_t)(chain > 0 && prng_chance(g, 50) ? 2 + prng_n(g, 2) : prng_chance(g, 25) ? 1 : 0));
+	}
+	plan_add(P, "knob", "cb_rc", 1, (int64_t)(prng_chance(g, 15) ? (prng_chance(g, 50) ? 1 + (int64_t)prng_n(g, 100) : -1 - (int64_t)prng_n(g, 100)) : 0));
 	plan_add(P, "knob", "fill", 1, (int64_t)(prng_chance(g, 30) ? ' ' : prng_chance(g, 30) ? '7' : prng_chance(g, 50) ? 256 : 0));
 	/* addresses */
 	na = c14 ? 1 + (int)prng_n(g, 2) : (prng_chance(g, 80) ? 1 : 1 + (int)prng_n(g, 3));
@@ -1129,6 +1174,9 @@ engine_run(const struct plan * P)
 	simalloc_fill = (int)plan_knob(P, "fill", -1);
 	simalloc_fill_seed = 4242;
 	cancel_after = (int)plan_knob(P, "cancel_after", -1);
+	cb_rc = (int)plan_knob(P, "cb_rc", 0);
+	use_tls = (int)plan_knob(P, "tls", 0) == 1;
+	tls_mix = (int)plan_knob(P, "tls", 0) >= 2 ? (int)plan_knob(P, "tls", 0) : 0;
 	chain_left = (int)plan_knob(P, "chain", 0);
 	if (chain_left < 0 || chain_left > 3)
 		chain_left = 0;
@@ -1249,14 +1297,14 @@ engine_run(const struct plan * P)
 	TR(0x01, maxrlen, RESP.n, "http_request(%s %s, %zu headers, %zu body bytes, maxrlen=%zu); server stream %zu bytes, %s", HREQ.method, HREQ.path,
 	    HREQ.nheaders, HREQ.bodylen, maxrlen, RESP.n, EX.known ? "well formed" : "hostile");
 	LIB_ENTER();
-	hcookie = http_request(sas, &HREQ, maxrlen, http_callback, NULL);
+	hcookie = issue_request();
 	LIB_LEAVE();
 	if (hcookie == NULL) {
 		if (!AF_SINCE(f0))
 			sim_viol("C08.once", "request-null", "http_request returned NULL without an allocation failure");
 		if (!sim_af_persist) {
 			LIB_ENTER();
-			hcookie = http_request(sas, &HREQ, maxrlen, http_callback, NULL);
+			hcookie = issue_request();
 			LIB_LEAVE();
 			if (hcookie == NULL)
 				sim_viol("C14.retry", "http", "http_request failed again with a healthy allocator");
@@ -1287,6 +1335,12 @@ engine_run(const struct plan * P)
 		i = events_run();
 		LIB_LEAVE();
 		R->steps++;
+		if (i != 0 && cb_rc_returned && !req_live) {
+			/* the callback's own non-zero result comes back from events_run unchanged: the request is over */
+			if (i != cb_rc && !AF_SINCE(f0) && simalloc_failed == 0)
+				sim_viol("C08.live", "loop-rc", "events_run returned %d, the callback had returned %d", i, cb_rc);
+			break;
+		}
 		if (i != 0) {
 			R->cnt[N_LOOP_FAIL]++;
 			loop_failed = 1;
@@ -1325,6 +1379,19 @@ engine_run(const struct plan * P)
 		if (sim_verbose)
 			simalloc_dump_live();
 		sim_viol(sim_c14 ? "C14.leak" : "C08.leak", "leak", "%zu library blocks (%zu bytes) still allocated after the request ended and the exit handlers ran", nl, by);
+	}
+	{
+		int nopen = 0, fdopen = -1;
+
+		for (i = 0; i < VK_MAXSOCK; i++)
+			if (vk_socks[i].used && !vk_socks[i].closed_by_app) {
+				nopen++;
+				fdopen = vk_socks[i].fd;
+			}
+		if (tls_stub_live != 0)
+			sim_viol(sim_c14 ? "C14.leak" : "C08.leak", "tls-leak", "%d TLS context(s) still open after the request ended", tls_stub_live);
+		if (nopen != 0)
+			sim_viol(sim_c14 ? "C14.leak" : "C08.leak", "fd-leak", "%d socket(s) opened by the request (e.g. fd %d) still open after it ended", nopen, fdopen);
 	}
 	R->sim_ns = vk_now_ns - VK_T0_NS;
 	R->cnt[N_F_RECV_SHORT] = vk_stats.recv_short;
